@@ -252,6 +252,30 @@ fn encode_meta(
     Ok(())
 }
 
+/// Page ids referenced by a segment meta page: the offsets, edges, in_offsets and in_edges
+/// page lists, in that order (layout written by `encode_meta`).
+pub(crate) fn meta_page_ids(meta_page: &[u8; PAGE_SIZE]) -> Result<Vec<u64>> {
+    if meta_page[0..8] != META_MAGIC {
+        return Err(Error::WalProtocol("invalid csr meta magic"));
+    }
+
+    let mut total = 0usize;
+    for i in 0..4 {
+        let off = 64 + i * 4;
+        total += u32::from_le_bytes(meta_page[off..off + 4].try_into().unwrap()) as usize;
+    }
+    if 80usize + total * 8 > PAGE_SIZE {
+        return Err(Error::WalProtocol("csr meta page overflow"));
+    }
+
+    let mut ids = Vec::with_capacity(total);
+    for i in 0..total {
+        let off = 80 + i * 8;
+        ids.push(u64::from_le_bytes(meta_page[off..off + 8].try_into().unwrap()));
+    }
+    Ok(ids)
+}
+
 fn decode_segment(meta_page: &[u8; PAGE_SIZE], pager: &mut Pager) -> Result<CsrSegment> {
     if meta_page[0..8] != META_MAGIC {
         return Err(Error::WalProtocol("invalid csr meta magic"));
